@@ -318,8 +318,9 @@ class _Sim(object):
         return m
 
     def do_actions(self, ev, context, acts, scen_id, element=None):
-        for act in acts:
+        for act_index, act in enumerate(acts):
             a = act["a"]
+            self._act_site = [ev.get("key"), act_index]
             if a == "print":
                 m = self.next_marker(act["stream"], scen_id, ev)
                 stream = sys.stdout if act["stream"] == "stdout" else sys.stderr
@@ -381,7 +382,8 @@ class _Sim(object):
         self.cleanup_n += 1
         cid = "c%d" % self.cleanup_n
         info = {"cid": cid, "kind": act["kind"], "raises": act.get("raises"),
-                "reg_seq": ev["seq"], "layer": act.get("layer"), "registered": False}
+                "reg_seq": ev["seq"], "layer": act.get("layer"), "registered": False,
+                "site": list(getattr(self, "_act_site", [None, None]))}
         self.cleanups[cid] = info
         sim = self
 
